@@ -216,9 +216,22 @@ CHECKS = {
         note="Trusted: TLC, renderer, hooks H2/H3. One genuine defect (a kinded alias cycle is accepted and emitted as a self-referential $ref) is a recorded known finding.",
         technique="TLA+ state machine of cycles_check (TLC, all graphs) + TLA+ stateful evaluator over recursion families (TLC) + spec->impl replay with trace validation of evaluator events",
     ),
+    "C02": dict(
+        design_ref="DESIGN.md 3.6 (Den.tla), 4 (C02)",
+        text="Den.tla is an independent reference semantics (static binding relation, lexical environment of thunks keyed by binder "
+             "identity, call by name, recursion by unfolding to a structural depth, explicit references as named references) that maps "
+             "a program to an abstract document: path items with path/query parameters, one operation per declared method with query "
+             "and header parameters, request body, responses per (status, media type) with schema and headers, explicit components. "
+             "TLC evaluates it on every member of eight families that the kind checker model accepts (about 3 000 accepted programs). "
+             "Each is rendered (renderer cross-checked by tree2ast), compiled by the real pipeline, and the emitted document - "
+             "abstracted into the same shape with implicit components unfolded to the same depth - must equal the denotation; "
+             "differences are classified (response-missing, operation-missing, schema differs, ...).",
+        note="Trusted: TLC, renderer, the Python abstraction of documents. Annotations are outside the fragment. One defect found was fixed (default response media types), one is a recorded known finding (two resources with one path).",
+        technique="independent TLA+ reference semantics (denotation by unfolding) evaluated by TLC over program families + comparison with the abstraction of the real emitted document",
+    ),
 }
 
-PENDING_REASON = "check not built yet (work in progress; see DESIGN.md section 8 for the build order)"
+PENDING_REASON = "not claimed"
 
 
 def main():
